@@ -69,6 +69,17 @@ class C13(InvProp):
             yield c
         for j in range(6 if tier == "quick" else 60):
             yield GI2.scale_inventory(Rng(seed, "C13:scale2", j), tier)
+        for j in range(20 if tier == "quick" else 400):
+            rr = Rng(seed, "C13:oddnames", j)
+            c = GI.gen_inventory(rr, n_classes=rr.range(1, 4), shape="tree", n_nodes=rr.range(2, 5), compose=rr.chance(1, 2))
+            nodes = [f for f in c["files"] if f["path"].startswith("nodes/")]
+            for f in nodes[: rr.range(1, 2)]:
+                base = f["path"].rsplit("/", 1)[1]
+                f["path"] = f["path"].rsplit("/", 1)[0] + "/" + rr.choice(["~", "=", "~~", "-"]) + base
+            for f in nodes:
+                f["content"]["applications"] = [rr.choice(["shared", "=db", "app_a", "x~y", "~gone"]) for _ in range(rr.range(1, 3))]
+            c["fam"] = "odd_names"
+            yield c
         N = 200 if tier == "quick" else 5000
         for i in range(N):
             r = Rng(seed, "C13", i)
